@@ -231,3 +231,33 @@ def external_patch(patch, props, cases=None, tier="quick", log=print):
         return out
     finally:
         shutil.rmtree(base, ignore_errors=True)
+
+
+def seeded(only=None, tier="quick", log=print):
+    """Run the owning check against every kept seeded change (seeded/<id>/patch.diff applied to a scratch copy of the tree under
+    test) and record the outcome in seeded/RESULTS.json. Exit 0 when every one of them is reported as a violation."""
+    import json  # pylint: disable=import-outside-toplevel
+
+    root = os.path.join(runner.VERIF, "seeded")
+    path = os.path.join(root, "RESULTS.json")
+    merged = {}
+    if os.path.exists(path):
+        with open(path, encoding="utf-8") as fh:
+            merged = {r["id"]: r for r in json.load(fh)}
+    missed = 0
+    for sid in sorted(os.listdir(root)):
+        d = os.path.join(root, sid)
+        if not os.path.isdir(d) or (only and sid not in only):
+            continue
+        with open(os.path.join(d, "meta.json"), encoding="utf-8") as fh:
+            prop = json.load(fh)["property"]
+        t0 = time.monotonic()
+        out = external_patch(os.path.join(d, "patch.diff"), [prop], tier=tier, log=lambda *_: None)[prop]
+        caught = out["exit"] == 1
+        missed += 0 if caught else 1
+        merged[sid] = {"id": sid, "property": prop, "tier": tier, "check_exit": out["exit"], "caught": caught,
+                       "signatures": [s[:260] for s in out["signatures"][:4]], "wall_s": round(time.monotonic() - t0, 1)}
+        log("%-6s %s exit=%d %s %s" % (sid, prop, out["exit"], "CAUGHT" if caught else "missed", (out["signatures"][0][:160] if out["signatures"] else "")))
+    with open(path, "w", encoding="utf-8") as fh:
+        json.dump([merged[k] for k in sorted(merged)], fh, indent=1)
+    return 0 if not missed else 3
